@@ -405,3 +405,32 @@ func init() {
 		t.logf("queue now empty: %s", es(err))
 	}
 }
+
+func init() {
+	scripts["udp/connected-port-unreachable"] = func(t *tr) {
+		a := t.a
+		x := t.udpSock(lo, 0, false)
+		xn, _ := a.Getsockname(x)
+		a.Close(x) // nobody listens on that port any more
+		s, _ := a.Socket(syscall.AF_INET, syscall.SOCK_DGRAM|syscall.SOCK_NONBLOCK, 0)
+		t.own(s)
+		t.logf("connect: %s", es(a.Connect(s, sa4(lo, portOf(xn)))))
+		t.masks("connected, idle", s)
+		t.write("send to the closed port", s, []byte("ping"))
+		a.settle()
+		t.masks("after the port-unreachable came back", s)
+		t.logf("IN interest only: %s; OUT interest only: %s", t.mask(s, in), t.mask(s, out))
+		t.recv("recv", s, 10)
+		t.masks("error consumed", s)
+		t.recv("recv again", s, 10)
+		t.write("send again", s, []byte("ping"))
+		a.settle()
+		t.write("send with the error pending", s, []byte("ping"))
+		t.masks("after that", s)
+		v, err := a.GetsockoptInt(s, syscall.SOL_SOCKET, syscall.SO_ERROR)
+		t.logf("SO_ERROR: %s %s", errnoName(syscall.Errno(v)), es(err))
+		t.write("send", s, []byte("ping"))
+		a.settle()
+		t.read("read(2) reports it too", s, 10)
+	}
+}
